@@ -65,14 +65,15 @@ static TCircuit genStagger(SplitMix &g, const GenOpts &o) {
   return t;
 }
 
-static int pickCut(SplitMix &g) { int k = (int)g.uni(0, 9); return k < 2 ? 0 : k < 5 ? 1 : k < 7 ? 2 : k < 9 ? (int)g.uni(3, 6) : (int)g.uni(20, 1000); }
+// cut-offs 0 / 1 / 2 / small / large; 1 in 40: INT_MAX or just below (accepted by DetailedPlacerParameters::check; `i + nbNeighbours + 1`)
+static int pickCut(SplitMix &g) { if (g.coin(3)) return 2147483647 - (int)g.uni(0, 3) * (int)g.uni(0, 20); int k = (int)g.uni(0, 9); return k < 2 ? 0 : k < 5 ? 1 : k < 7 ? 2 : k < 9 ? (int)g.uni(3, 6) : (int)g.uni(20, 1000); }
 
 int main(int argc, char **argv) {
   std::string mode = argc > 1 ? argv[1] : "run";
   if (mode == "gen") {
     SplitMix g(strtoull(argv[3], nullptr, 10)); long long count = atoll(argv[4]); int m = argc > 5 ? atoi(argv[5]) : 0;
     for (long long it = 0; it < count; ++it) {
-      GenOpts o; o.nets = true; o.utilLo = 20; o.utilHi = 85; o.maxCells = (int)g.uni(6, 22);
+      GenOpts o; o.nets = true; o.utilLo = 20; o.utilHi = 85; o.maxCells = g.coin(10) ? (int)g.uni(22, 40) : (int)g.uni(6, 22);
       if (m & 2) o.turned = false; if (m & 16) o.polarity = false;
       TCircuit t = g.coin(45) ? genStagger(g, o) : genCircuit(g, o);
       if (g.coin(60)) {
